@@ -147,9 +147,9 @@ func c08Programs() []c08Program {
 		out = append(out, c08Program{name: fmt.Sprintf("fixture%d", i), src: f})
 	}
 	var files []string
-	for _, pat := range []string{vrt.Repo+"/testsuite/lang/*.mpcl", vrt.Repo+"/testsuite/bytes/*.mpcl", vrt.Repo+"/testsuite/math/bits/*.mpcl", vrt.Repo+"/testsuite/strconv/*.mpcl",
-		vrt.Repo+"/testsuite/crypto/sha1.mpcl", vrt.Repo+"/testsuite/crypto/sha256_block.mpcl", vrt.Repo+"/testsuite/crypto/hmac_sha1.mpcl", vrt.Repo+"/testsuite/crypto/hmac_sha256.mpcl",
-		vrt.Repo+"/apps/garbled/examples/millionaire.mpcl", vrt.Repo+"/apps/garbled/examples/hamming.mpcl", vrt.Repo+"/apps/garbled/examples/credit.mpcl", vrt.Repo+"/apps/garbled/examples/rps.mpcl"} {
+	for _, pat := range []string{vrt.Repo + "/testsuite/lang/*.mpcl", vrt.Repo + "/testsuite/bytes/*.mpcl", vrt.Repo + "/testsuite/math/bits/*.mpcl", vrt.Repo + "/testsuite/strconv/*.mpcl",
+		vrt.Repo + "/testsuite/crypto/sha1.mpcl", vrt.Repo + "/testsuite/crypto/sha256_block.mpcl", vrt.Repo + "/testsuite/crypto/hmac_sha1.mpcl", vrt.Repo + "/testsuite/crypto/hmac_sha256.mpcl",
+		vrt.Repo + "/apps/garbled/examples/millionaire.mpcl", vrt.Repo + "/apps/garbled/examples/hamming.mpcl", vrt.Repo + "/apps/garbled/examples/credit.mpcl", vrt.Repo + "/apps/garbled/examples/rps.mpcl"} {
 		m, _ := filepath.Glob(pat)
 		files = append(files, m...)
 	}
